@@ -210,8 +210,10 @@ func (t *TxWatcher) AddWaitForConfirmationTx(swapId string, txId string, _ uint3
 
 				// We add a +1 as the confirmation block height is the height of
 				// first confirmation.
-				confs := currentHeight - conf.blockHeight + 1
-				if confs >= onchain.BitcoinCsvSafetyLimit {
+				// Signed: a best block that lags behind the confirmation event must
+				// not wrap around into "above the limit".
+				confs := int64(currentHeight) - int64(conf.blockHeight) + 1
+				if confs >= int64(onchain.BitcoinCsvSafetyLimit) {
 					// We are already above half of the csv limit here, it is
 					// unsafe to pay for the invoice now.
 					// TODO: Check if this is handled correctly by the swap state
@@ -339,7 +341,9 @@ func (t *TxWatcher) AddWaitForCsvTx(swapId string, txId string, vout uint32, hei
 					// We add a +1 as the confirmation block height is the height of
 					// first confirmation. If the current confirmations are past the
 					// csv limit we call back.
-					if be.Height-conf.blockHeight+1 >= onchain.BitcoinCsv {
+					// Signed: a block epoch older than the confirmation must not
+					// wrap around into "CSV passed".
+					if int64(be.Height)-int64(conf.blockHeight)+1 >= int64(onchain.BitcoinCsv) {
 						log.Infof("[TxWatcher] Wait for csv limit on swap %s: Csv passed limit, call csvPassedCallback", swapId)
 						if t.csvPassedCallback == nil {
 							log.Infof("[TxWatcher] Wait for csv limit on swap %s: confirmationCallback is nil", swapId)
